@@ -37,7 +37,7 @@ for _k, _p in PROFILES.items():
         _p.setdefault(_f, False)
     _p["key"] = _k
 
-ENABLED = ("P", "R", "F", "B", "L")
+ENABLED = ("P", "R", "F", "B", "L", "S", "C")
 
 QP, RP, QG, RG, RE, ITEMS, RD, RI = ("reserve_put_queue", "reservations_put", "reserve_get_queue",
                                       "reservations_get", "reserved_events", "items", "ready_items",
@@ -126,7 +126,7 @@ class StoreLib(LibBase):
         for nm in (QP, RP, QG, RG, RE):
             f[nm] = ("list", EV)
         f[ITEMS] = ("list", ("tuple", [IT, ("num", "real")])) if p["tuple"] else ("list", IT)
-        f["capacity"] = ("num", "intinf")
+        f["capacity"] = ("num", "int") if p["belt"] else ("num", "intinf")   # conveyors always pass an integer
         if not p["noavg"]:
             f["_last_level_change_time"] = ("num", "real")
             f["_last_num_items"] = ("num", "int")
@@ -144,6 +144,18 @@ class StoreLib(LibBase):
             f["delay"] = ("num", "real")
             f["transit_delay"] = ("num", "real")
             f["activate_fleet"] = ("obj", "event")
+        if p["belt"]:
+            f["active_move_processes"] = ("opaque",)
+            f["resume_event"] = ("obj", "event")
+            f["noaccumulation_mode_on"] = ("bool",)
+            f["one_item_inserted"] = ("bool",)
+            f["ready_item_event"] = ("obj", "event")
+            if cls == "C":
+                f["speed"] = ("num", "real")
+                f["accumulation_mode_indicator"] = ("bool",)
+                f["active_delayed_interrupt_processes"] = ("opaque",)
+            else:
+                f["delay"] = ("num", "real")
         return f
 
     def initial_state(self, cls, fname, con):
@@ -168,10 +180,20 @@ class StoreLib(LibBase):
         if con.is_init:
             return out
         cap = st.f["capacity"]
-        out.append(("valid.capacity", z3.Or(cap.inf, cap.t >= 1)))
+        out.append(("valid.capacity", z3.Or(cap.inf, cap.t >= 1) if cap.inf is not None else cap.t >= 1))
         for nm in (QP, RP, QG, RG, RE, ITEMS, RD, RI):
             if nm in st.f:
                 out.append(("valid.len." + nm, st.f[nm].len >= 0))
+        p = PROFILES[cls]
+        if p["belt"]:
+            if cls == "C":
+                out.append(("valid.speed", st.f["speed"].t > 0))
+                out.append(("valid.item-lengths", V.forall_idx(st.f[ITEMS], lambda i, x: z3.Select(
+                    st.heap_arr("length"), x.items[0].t) > 0, "lengths")))
+            else:
+                out.append(("valid.delay", st.f["delay"].t > 0))
+                # the flag is only ever written by the slotted ConveyorBelt.behaviour, which never leaves IDLE_STATE
+                out.append(("valid.S-flag-off", z3.Not(st.f["noaccumulation_mode_on"].t)))
         return out
 
     # ------------------------------------------------------------------ invariant
@@ -265,6 +287,10 @@ class StoreLib(LibBase):
                 for nm in EVENT_LISTS:
                     out.append(("I-fleet.af-distinct." + nm, V.forall_idx(f[nm], lambda i, e: e.t != af, "af-distinct"),
                                 ("C14",)))
+        if p["belt"] and cls == "C":
+            out.append(("I-belt.items-carry-interruption-bookkeeping", V.forall_idx(It, lambda i, x: z3.And(
+                z3.Not(z3.Select(st.heap_arr("absent:total_interruption_time"), x.items[0].t)),
+                z3.Not(z3.Select(st.heap_arr("absent:interruption_start_time"), x.items[0].t))), "I-belt.attrs"), ("C20", "C12")))
         # I-nlw
         # can_put()/can_get() of the Buffer and Fleet edges are exact only because of these two (C11)
         nlw_props = ("C04", "C11") if cls in ("B", "L") else ("C04",)
@@ -341,7 +367,31 @@ class StoreLib(LibBase):
 
     def grantable_put(self, cls, st):
         p = PROFILES[cls]
-        return cap_lt(st.f[RP].len + held(st, p), st.f["capacity"])
+        room = cap_lt(st.f[RP].len + held(st, p), st.f["capacity"])
+        if not p["belt"]:
+            return room
+        It = st.f[ITEMS]
+        last = It.at(It.len - 1).items[0].t
+        entry = lambda x: z3.Select(st.heap_arr("conveyor_entry_time"), x)
+        if cls == "S":
+            flags = z3.Or(z3.Not(st.f["noaccumulation_mode_on"].t), z3.Not(st.f["one_item_inserted"].t))
+            spaced = st.now >= entry(last) + st.f["delay"].t
+            return z3.If(It.len > 0, z3.And(room, flags, spaced), room)
+        first = It.at(z3.IntVal(0)).items[0].t
+        tot = lambda x: z3.Select(st.heap_arr("total_interruption_time"), x)
+        st.heap_arr("interruption_start_time")
+        isn = lambda x: z3.Select(st.h["interruption_start_time?none"], x)
+        ist = lambda x: z3.Select(st.heap_arr("interruption_start_time"), x)
+        ln = lambda x: z3.Select(st.heap_arr("length"), x)
+        tob = lambda x: z3.If(isn(x), st.now - entry(x) - tot(x), st.now - entry(x) - (st.now - ist(x)) - tot(x))
+        speed = st.f["speed"].t
+        d = tob(last) - ln(last) / speed
+        close = z3.And(d < z3.RealVal("0.00001"), -d < z3.RealVal("0.00001"))
+        spaced = z3.Or(close, tob(last) > ln(last) / speed)
+        capr = z3.ToReal(st.f["capacity"].t)
+        head_not_at_exit = z3.Not(tob(first) >= ln(first) * capr / speed)
+        mode_ok = z3.Or(st.f["accumulation_mode_indicator"].t, st.f[RD].len == 0)
+        return z3.If(It.len > 0, z3.And(room, mode_ok, spaced, head_not_at_exit), room)
 
     def grantable_get(self, cls, st):
         p = PROFILES[cls]
@@ -402,7 +452,14 @@ class StoreLib(LibBase):
         # ---- _do_reserve_put(event)
         def pre_do_rp(st, args):
             e = args["event"].t
-            return [("event-untriggered", z3.Not(trig(st, e)))]
+            pre = [("event-untriggered", z3.Not(trig(st, e)))]
+            if p["belt"] and cls == "C":
+                pre.append(("items-carry-interruption-bookkeeping", V.forall_idx(st.f[ITEMS], lambda i, x: z3.And(
+                    z3.Not(z3.Select(st.heap_arr("absent:total_interruption_time"), x.items[0].t)),
+                    z3.Not(z3.Select(st.heap_arr("absent:interruption_start_time"), x.items[0].t))), "attrs")))
+                pre.append(("speed-positive", st.f["speed"].t > 0))
+                pre.append(("len-nonneg", st.f[ITEMS].len >= 0))
+            return pre
 
         def post_do_rp(c):
             o = c.old
@@ -715,6 +772,9 @@ class StoreLib(LibBase):
                        ("A-distinct.not-ready", V.forall_idx(st.f[RD], lambda i, y: y.t != x, "A-distinct.Rd"))]
                 if p["tuple"]:
                     pre.append(("delay-nonneg", args["item"].items[1].t >= 0))
+                if p["belt"]:
+                    # the conveyor edge stamps the entry time before handing the item to its belt store
+                    pre.append(("entry-time-stamped-now", z3.Select(st.heap_arr("conveyor_entry_time"), x) == st.now))
                 return pre
             inner_trig = p["fleet"]      # FleetStore._do_put runs the get-side trigger itself
             put_mods = (RP, ITEMS) + avg_mods + lib.put_extra_mods(cls)
@@ -870,6 +930,11 @@ class StoreLib(LibBase):
                 "move_to_ready_items", [("item", item_kind, None)], post=post_mover, entry_assume=mover_entry,
                 modifies=(ITEMS, RD, QG, RG, RE, RI, QP, RP), heap_modifies=("triggered",),
                 is_generator=True, props=("C01", "C02", "C04", "C11"))
+
+        if p["belt"]:
+            mv = FnContract("move_to_ready_items", [("item", item_kind, None)], is_generator=True, props=("C12",))
+            mv.assumed = True      # the two-phase travel timer with interrupt/resume is NOT verified (see DESIGN.md)
+            C["move_to_ready_items"] = mv
 
         # ---- reserve_put_cancel
         def post_rpc(c):
@@ -1142,7 +1207,8 @@ class StoreLib(LibBase):
                 modifies=("delay",), heap_modifies=("triggered",), props=("C04",))
 
         # ---- __init__
-        init_params = [("env", ("env",), None), ("capacity", ("num", "intinf"), Num(z3.IntVal(0), inf=z3.BoolVal(True)))]
+        init_params = [("env", ("env",), None), (("capacity", ("num", "int"), None) if p["belt"] else
+                                                 ("capacity", ("num", "intinf"), Num(z3.IntVal(0), inf=z3.BoolVal(True))))]
         if p["lifo"]:
             init_params.append(("mode", ("str",), VStr("FIFO")))
         if p["filt"]:
@@ -1150,11 +1216,18 @@ class StoreLib(LibBase):
         if p["fleet"]:
             init_params.append(("delay", ("num", "real"), Num(1)))
             init_params.append(("transit_delay", ("num", "real"), Num(0)))
+        if p["belt"] and cls == "C":
+            init_params.append(("speed", ("num", "real"), Num(1)))
+            init_params.append(("accumulation_mode_indicator", ("bool",), VBool(True)))
+        if p["belt"] and cls == "S":
+            init_params.append(("delay", ("num", "real"), Num(1)))
         C["__init__"] = FnContract(
             "__init__", init_params,
-            excs=[ExcCase("ValueError", lambda c: z3.And(z3.Not(c.args["capacity"].inf), c.args["capacity"].t <= 0),
+            excs=[ExcCase("ValueError", lambda c: z3.And(z3.Not(c.args["capacity"].inf) if c.args["capacity"].inf is not None
+                                                         else True, c.args["capacity"].t <= 0),
                           "non-positive-capacity", unchanged=False, props=("C20",))],
-            normal_requires=lambda c: z3.Or(c.args["capacity"].inf, c.args["capacity"].t > 0),
+            normal_requires=lambda c: z3.Or(c.args["capacity"].inf, c.args["capacity"].t > 0)
+            if c.args["capacity"].inf is not None else c.args["capacity"].t > 0,
             post=lambda c: [Clause("capacity-recorded", lambda c: V.eq(c.new.f["capacity"], c.args["capacity"]), ("C01",))]
             + ([Structural("starts-the-activation-process", lambda c: len(
                 [x for x in c.new.ghost.get("spawned", []) if x[0] == "fleet_activation_process"]) == 1, ("C14",))]
@@ -1339,13 +1412,35 @@ class StoreLib(LibBase):
         raise Unsupported("%s.%s() at line %d" % (base.kind, name, node.lineno))
 
     def obj_attr(self, ex, base, attr, st, lineno):
+        if base.kind == "item" and ("absent:" + attr) in __import__("pyvc.state", fromlist=["HEAP_SCHEMA"]).HEAP_SCHEMA:
+            outs, ok = ex.raise_if(st, z3.Select(st.heap_arr("absent:" + attr), base.t), "AttributeError", lineno,
+                                   "item has no attribute %s yet" % attr)
+            if ok is not None:
+                outs.append((ok.heap_get(base, attr), ok))
+            return outs
+        if base.kind == "item" and attr == "id":
+            return [(VOpaque("item-id"), st)]
         if base.kind == "event" and attr == "callbacks":
             v = VOpaque("callbacks")
             v.event = base.t
             return [(v, st)]
         return [(st.heap_get(base, attr), st)]
 
+    def has_attr(self, ex, v, name, st):
+        if isinstance(v, VObj) and v.kind == "item" and name in ("id", "length"):
+            return VBool(True)          # validity: flow items have an id and a length
+        return None
+
+    def set_item(self, ex, base, idx, v, st, lineno):
+        return None
+
+    def builtin(self, ex, name, args, kw, st, node):
+        return None
+
     def call_opaque(self, ex, base, name, args, kw, st, node):
+        if base.tag == "module:np" and name == "abs":
+            n = V.as_num(args[0])
+            return [(Num(z3.If(n.t < 0, -n.t, n.t)), st)]
         if base.tag == "callbacks" and name == "append" and isinstance(args[0], V.VFunc):
             s = st.fork()
             s.ghost.setdefault("callbacks", []).append((base.event, args[0].name))
@@ -1356,6 +1451,11 @@ class StoreLib(LibBase):
         if attr == "resourcename":
             st.heap_arr("resourcename")
             return [Outcome("next", st)]   # back-reference to the store; identity not modelled
+        if base.kind == "item" and ("absent:" + attr) in __import__("pyvc.state", fromlist=["HEAP_SCHEMA"]).HEAP_SCHEMA:
+            st.heap_arr("absent:" + attr)
+            st.h["absent:" + attr] = z3.Store(st.h["absent:" + attr], base.t, False)
+            st.heap_set(base, attr, ex.deref(v, st))
+            return [Outcome("next", st)]
         if attr == "filter":
             if isinstance(v, V.VOpt):
                 # the path condition has already excluded None (the code tests `filter is None` first)
